@@ -7,6 +7,7 @@ import (
 	"context"
 	"fmt"
 	"net"
+	"os"
 	"sort"
 	"strings"
 	"sync"
@@ -30,6 +31,8 @@ import (
 	"verifsim/simrt"
 )
 
+var debug = os.Getenv("C02_DEBUG") != ""
+
 func TestSim(t *testing.T) { common.Main(t, common.Harness{Property: "C02", Run: run}) }
 
 // no progress (no Read/Write returned, nothing delivered on the wire) for this long in virtual time:
@@ -46,6 +49,8 @@ type world struct {
 	progress atomic.Int64
 	pending  atomic.Int64 // tasks not finished (started or not)
 	closing  atomic.Bool  // teardown has begun: handlers must not start new tasks
+	peerClosed atomic.Bool // peer-close stratum: the closing side has closed its connection
+	aux        atomic.Int32 // auxiliary harness tasks alive (they must be gone before main returns)
 
 	rawA, rawB *simnet.Conn
 	chans      [][2]*chanState
@@ -89,8 +94,11 @@ func run(t *testing.T, tape *simrt.Tape) *common.Outcome {
 	p := genPlan(g)
 	for _, l := range p.describe() {
 		o.Logf("%s", l)
+		if debug {
+			fmt.Fprintln(os.Stderr, l)
+		}
 	}
-	w := &world{p: p, o: o, probes: map[string]int{}, gate: make(chan struct{})}
+	w := &world{p: p, o: o, probes: map[string]int{}}
 	w.chans = make([][2]*chanState, p.nstreams)
 	w.sideClosed = make([][2]atomic.Bool, p.nstreams)
 	w.strA = make([]network.Stream, p.nstreams)
@@ -106,6 +114,12 @@ func run(t *testing.T, tape *simrt.Tape) *common.Outcome {
 
 	o.Sched = res
 	o.Virtual = res.Virtual
+	if debug {
+		for _, r := range res.Residue {
+			fmt.Fprintln(os.Stderr, "RESIDUE:", r)
+		}
+		fmt.Fprintf(os.Stderr, "steps=%d virtual=%v deadlock=%q stuck=%v\n", res.Steps, res.Virtual, res.Deadlock, res.Stuck)
+	}
 	w.finish(res)
 	return o
 }
@@ -126,7 +140,8 @@ func (w *world) installHook(d *simnet.Conn) {
 		if toDialer {
 			from = w.rawB
 		}
-		simrt.GoNamed("adversary-fin", func() { from.CloseWrite() })
+		w.aux.Add(1)
+		simrt.GoNamed("adversary-fin", func() { defer w.aux.Add(-1); from.CloseWrite() })
 	}
 	w.mitm = m
 	d.SetHook(m.hook)
@@ -326,6 +341,7 @@ func (w *world) acceptB(s int, st network.Stream) {
 
 func (w *world) main(tape *simrt.Tape) {
 	p := w.p
+	w.gate = make(chan struct{}) // made inside the bubble: blocking on it is durable
 	// The handshakes are not what this property is about: they run under coarse chunking (TLS needs whole
 	// deliveries because its handshake lengths depend on crypto/rand); the data phase uses the drawn mode.
 	setupMode := simnet.Fragment
@@ -380,9 +396,58 @@ func (w *world) main(tape *simrt.Tape) {
 			simrt.GoNamed(fmt.Sprintf("read-A-s%d", s), func() { rc.reader(e) })
 		}
 	}
+	if p.pclose.on {
+		w.aux.Add(1)
+		simrt.GoNamed("peer-close", func() { defer w.aux.Add(-1); w.peerCloser() })
+	}
 	close(w.gate)
 	w.wait()
 	w.teardown()
+}
+
+// peerCloser (peer-close stratum): as soon as every task of one side has finished - its writers have half-closed,
+// its readers have seen the end - that side closes the whole connection, the way a process that is done goes
+// away. Nothing of what the OTHER side still has to read is in doubt: it was accepted by Write and the write
+// side was closed in order before.
+func (w *world) peerCloser() {
+	x := 0
+	if w.p.pclose.sideB {
+		x = 1
+	}
+	for {
+		if w.closing.Load() {
+			return
+		}
+		done := true
+		for s := range w.chans {
+			if !w.chans[s][x].wDone.Load() || !w.chans[s][1-x].rDone.Load() {
+				done = false
+			}
+		}
+		if done {
+			break
+		}
+		simrt.TimeSleep(5 * time.Millisecond)
+	}
+	if d := w.p.pclose.delay; d > 0 {
+		simrt.TimeSleep(d)
+	}
+	if w.closing.Load() {
+		return
+	}
+	w.peerClosed.Store(true)
+	switch {
+	case isConnLayer(w.p.layer):
+		if x == 0 {
+			w.connA.Close()
+		} else {
+			w.connB.Close()
+		}
+	case x == 0:
+		w.nodeA.Swarm.ClosePeer(w.nodeB.ID)
+	default:
+		w.nodeB.Swarm.ClosePeer(w.nodeA.ID)
+	}
 }
 
 func (w *world) connEnd(c net.Conn, raw *simnet.Conn) *end {
@@ -424,10 +489,10 @@ func (w *world) unfinished() int {
 	for s := range w.chans {
 		for d := 0; d < 2; d++ {
 			c := w.chans[s][d]
-			if c.rStarted && !c.rDone {
+			if c.rStarted && !c.rDone.Load() {
 				n++
 			}
-			if c.wStarted && !c.wDone {
+			if c.wStarted && !c.wDone.Load() {
 				n++
 			}
 		}
@@ -481,15 +546,48 @@ func (w *world) teardown() {
 	}
 	for i := 0; i < 300; i++ {
 		simrt.WaitIdle()
-		if w.unfinished() == 0 {
+		if w.unfinished() == 0 && w.aux.Load() == 0 {
 			break
 		}
 		simrt.TimeSleep(time.Second)
 	}
+	// simnet pumps may be inside a latency sleep; synctest stops advancing time once the bubble's root returns,
+	// so let them wake up and see the closed connection before main returns
+	simrt.TimeSleep(50 * time.Millisecond)
 	simrt.WaitIdle()
+	if debug {
+		for _, g := range simrt.BubbleGoroutines() {
+			fmt.Fprintln(os.Stderr, "LEFT:", g)
+		}
+	}
 }
 
 // ---- judgement ----------------------------------------------------------------------------------
+
+// violate files a failed oracle.
+func (w *world) violate(class, detail string) {
+	w.o.Violations = append(w.o.Violations, common.Violation{Class: class, Detail: detail})
+}
+
+// OBSERVATION, not an oracle (decision of the lead, guide rule 6): read deadlines and retries after a timeout are
+// outside the property's quantifier (write sizes, read-buffer sizes, short reads, concurrent streams, half close,
+// tampering). On the two bare connections that keep no partial-frame state a read deadline that expires in the
+// middle of a frame leaves the connection silently desynchronised:
+//   - pnet pskConn.Read reads the 24-byte nonce into a local buffer with io.ReadFull; the bytes consumed before the
+//     deadline are lost, the next Read takes 24 bytes from the middle of the stream as nonce, everything after is
+//     garbage (or, on a short stream, the payload is swallowed as nonce and the FIN reads as a clean io.EOF);
+//   - noise secureSession.Read loses the length byte / ciphertext consumed before the deadline and carries on in the
+//     middle of the frame: mostly an authentication error follows, but a bogus length can swallow the rest of the
+//     stream, after which the peer's FIN reads as a clean io.EOF with bytes missing.
+// Neither is reachable through the assembled stack (the upgrader closes the connection on a timeout, yamux reads the
+// secured connection without deadlines). After a reader of one of these two layers has seen a timeout, a mismatch or
+// a premature EOF on it is therefore counted as the probe below and the reader is not judged further. Every other
+// layer (TLS, yamux and host streams resume correctly after a deadline) keeps all oracles.
+const desyncProbe = "observation:desynchronised-after-read-deadline/"
+
+func (c *chanState) deadlineDesyncLayer() bool {
+	return c.hadTimeout && (c.w.p.layer == layNoise || c.w.p.layer == layPnet)
+}
 
 func (w *world) finish(res simrt.Result) {
 	o, p, lay := w.o, w.p, w.layer()
@@ -500,6 +598,7 @@ func (w *world) finish(res simrt.Result) {
 			stallFired = true
 		}
 	}
+	peerClosed := w.peerClosed.Load()
 	if advFired {
 		o.Fault("adversary-" + advName[p.adv.action])
 		o.Logf("adversary: %s", w.mitm.note)
@@ -508,6 +607,9 @@ func (w *world) finish(res simrt.Result) {
 	}
 	if stallFired {
 		o.Fault("stall")
+	}
+	if peerClosed {
+		o.Fault("peer-closed-connection")
 	}
 	if p.mode != simnet.Whole {
 		o.Fault("fragmentation-" + modeName(p.mode))
@@ -520,10 +622,10 @@ func (w *world) finish(res simrt.Result) {
 	if w.lazy > 0 {
 		w.probes["lazy-multistream-stream"] += w.lazy
 	}
-	faulted := advFired || stallFired
+	faulted := advFired || stallFired || peerClosed
 
 	var sig []string
-	sig = append(sig, lay, stratumName[p.stratum], modeName(p.mode), fmt.Sprintf("adv=%v stall=%v hung=%v", advFired, stallFired, w.hung))
+	sig = append(sig, lay, stratumName[p.stratum], modeName(p.mode), fmt.Sprintf("adv=%v stall=%v pc=%v hung=%v", advFired, stallFired, peerClosed, w.hung))
 	totalData := 0
 	judged := res.Panic == "" && o.Trouble == "" && !res.StepLimit && !res.Stuck && res.Deadlock == ""
 	for s := range w.chans {
@@ -545,16 +647,17 @@ func (w *world) finish(res simrt.Result) {
 				}
 			}
 			nv := len(o.Violations)
-			o.Violations = append(o.Violations, c.rviol...)
-			o.Violations = append(o.Violations, c.wviol...)
-			if judged {
-				w.judge(c, faulted, advFired)
+			for _, v := range append(append([]common.Violation(nil), c.rviol...), c.wviol...) {
+				w.violate(v.Class, v.Detail)
 			}
-			bad := len(o.Violations) > nv
+			if judged {
+				w.judge(c, faulted, advFired, stallFired)
+			}
+			bad := len(o.Violations) > nv || c.rEnd == "desync-after-deadline"
 			o.Logf("result %s: planned=%d accepted=%d delivered=%d reads=%d timeouts=%d reader=%s%s writer=%s%s started r=%v w=%v done r=%v w=%v",
-				c.id, cp.total, c.accepted, c.off, c.reads, c.timeouts, orDash(c.rEnd), paren(c.rErrText), orDash(c.wErr), paren(c.wErrText), c.rStarted, c.wStarted, c.rDone, c.wDone)
-			w.dump(c.id+" W", c.wlog, bad)
-			w.dump(c.id+" R", c.rlog, bad)
+				c.id, cp.total, c.accepted, c.off, c.reads, c.timeouts, orDash(c.rEnd), paren(c.rErrText), orDash(c.wErr), paren(c.wErrText), c.rStarted, c.wStarted, c.rDone.Load(), c.wDone.Load())
+			w.dump(c.id+" W", c.wlog.lines(), bad)
+			w.dump(c.id+" R", c.rlog.lines(), bad)
 		}
 	}
 	var pk []string
@@ -596,49 +699,94 @@ func paren(s string) string {
 }
 
 func (w *world) dump(who string, l []string, all bool) {
-	if !all && len(l) > 8 {
-		l = append(append(append([]string(nil), l[:4]...), fmt.Sprintf("... (%d more)", len(l)-8)), l[len(l)-4:]...)
+	if !all && len(l) > 6 {
+		l = append(append(append([]string(nil), l[:3]...), fmt.Sprintf("... (%d more)", len(l)-6)), l[len(l)-3:]...)
 	}
 	for _, s := range l {
 		w.o.Logf("    %s %s", who, s)
 	}
 }
 
-func (w *world) judge(c *chanState, faulted, advFired bool) {
-	o, lay := w.o, w.layer()
+func (w *world) judge(c *chanState, faulted, advFired, stallFired bool) {
+	lay := w.layer()
 	cp := c.p
 	ctx := c.ctx()
-	if faulted && !advFired {
+	if stallFired {
 		ctx += "/after-stall"
 	}
-	// Noise (and the PSK stream cipher) have no authenticated end of stream: cutting the byte stream on a
-	// frame boundary is indistinguishable from the peer's own FIN, so under tampering a reader of the bare Noise
-	// session may see EOF early. This is the weaker reading of "the reader gets an error"; every layer with an
-	// authenticated end (TLS close_notify, yamux FIN inside the secured channel) is held to the strict one.
-	noAuthEnd := w.p.layer == layNoise && advFired
+	// WEAKER READING of "truncated ... the reader gets an error": the bare secured connections have no end of
+	// stream the reader insists on. The libp2p Noise session has no termination message at all, and crypto/tls
+	// deliberately turns a FIN that arrives on a record boundary without close_notify into a plain io.EOF
+	// (crypto/tls conn.go readRecordOrCCS: "popular web sites seem to do this, so we accept it if and only if at
+	// the record boundary"). A stream cut (or a tail withheld) on a frame boundary is therefore indistinguishable
+	// from the peer's own FIN on these two layers: the reader gets io.EOF - an error value, never wrong data - and
+	// that is accepted here. go-libp2p never exposes these connections to applications: everything runs over
+	// yamux, whose FIN travels inside the authenticated channel, and the stream layers ARE held to the strict rule
+	// (EOF only after the writer closed and with every accepted byte delivered).
+	noAuthEnd := (w.p.layer == layNoise || w.p.layer == layTLS) && advFired &&
+		(w.p.adv.action == advTruncate || w.p.adv.action == advDrop || w.p.adv.action == advSwap)
+	if c.rEnd == "eof" && !noAuthEnd && c.deadlineDesyncLayer() && (!c.eofClosing || c.eofOff < c.accepted) {
+		w.probes[desyncProbe+lay+"/premature-eof"]++
+		w.o.Logf("OBSERVATION %s: after %d read timeouts Read returned io.EOF at offset %d; Write had accepted %d (writer closing: %v)", c.id, c.timeouts, c.eofOff, c.accepted, c.eofClosing)
+		c.rEnd = "desync-after-deadline"
+	}
 	if c.rEnd == "eof" && !noAuthEnd {
-		if !c.eofClosing {
-			o.Violate("C02/eof-before-close/"+lay+ctx, "%s: reader got EOF at offset %d although the writer had not begun to close (planned %d bytes, %d accepted so far)", c.id, c.off, cp.total, c.accepted)
-		} else if c.off < c.accepted {
-			o.Violate("C02/eof-with-missing-bytes/"+lay+ctx, "%s: reader got EOF after %d bytes but Write had accepted %d", c.id, c.off, c.accepted)
+		how := "eof-alone"
+		if c.eofWithData {
+			how = "eof-with-data"
+		}
+		more := ""
+		if c.afterEOFData > 0 {
+			more = fmt.Sprintf("; the next Read(s) then returned %d more bytes (correct continuation: %v)", c.afterEOFData, c.afterEOFGood)
+		}
+		// One class per diagnosed defect: on a stream, io.EOF handed out TOGETHER WITH data although the stream had
+		// not ended is the signature of the muxer returning a connection-level error from Read (whatever the
+		// security transport and whatever ended the connection; fixed in /repo by f6576df); anything else is
+		// classified by layer, shape and context.
+		pclass := "C02/premature-eof/" + lay + "/" + how
+		if !isConnLayer(w.p.layer) && c.eofWithData {
+			pclass = "C02/premature-eof/stream/eof-returned-with-data"
+		}
+		generic := strings.HasSuffix(pclass, how)
+		switch {
+		case !c.eofClosing:
+			if generic {
+				pclass += "/before-close" + ctx
+			}
+			w.violate(pclass, fmt.Sprintf("%s: Read returned io.EOF at offset %d although the writer had not begun to close (planned %d bytes)%s", c.id, c.eofOff, cp.total, more))
+		case c.eofOff < c.accepted:
+			if generic {
+				pclass += "/bytes-missing" + ctx
+			}
+			w.violate(pclass, fmt.Sprintf("%s: Read returned io.EOF after %d bytes but Write had accepted %d and the write side was closed in order%s", c.id, c.eofOff, c.accepted, more))
+		case c.afterEOFData > 0:
+			w.violate("C02/data-after-eof/"+lay+ctx, fmt.Sprintf("%s: Read returned io.EOF at the end (offset %d)%s", c.id, c.eofOff, more))
 		}
 	}
-	if c.off > c.accepted && c.wErr == "" && c.wDone {
-		o.Violate("C02/delivered-more-than-accepted/"+lay+ctx, "%s: %d bytes delivered, Write return values sum to %d", c.id, c.off, c.accepted)
+	if c.off > c.accepted && c.wErr == "" && c.wDone.Load() {
+		w.violate("C02/delivered-more-than-accepted/"+lay+ctx, fmt.Sprintf("%s: %d bytes delivered, Write return values sum to %d", c.id, c.off, c.accepted))
 	}
 	if faulted || c.hadTimeout {
 		return // weak regime: a correct prefix and the EOF rules above
 	}
 	// strong regime: nothing happened that may legitimately cost data
+	if c.rEnd == "violation" || c.wErr == "violation" {
+		return // already filed by the task
+	}
+	wrappedEnd := c.rEnd == "error:wrapped-eof" && c.off == cp.total && c.closing.Load()
+	if wrappedEnd {
+		// weaker reading: an error that wraps io.EOF, after every byte and after the writer closed, is accepted as the end
+		w.probes["clean-end-reported-as-wrapped-eof"]++
+	}
 	switch {
-	case w.hung && (!c.rDone || !c.wDone || !c.rStarted || !c.wStarted):
-		o.Violate("C02/hang/"+lay, "%s: no Read or Write returned for %v of virtual time; reader started=%v done=%v at offset %d, writer started=%v done=%v accepted %d of %d",
-			c.id, quietLimit, c.rStarted, c.rDone, c.off, c.wStarted, c.wDone, c.accepted, cp.total)
+	case w.hung && (!c.rDone.Load() || !c.wDone.Load() || !c.rStarted || !c.wStarted):
+		w.violate("C02/hang/"+lay, fmt.Sprintf("%s: no Read or Write returned for %v of virtual time; reader started=%v done=%v at offset %d, writer started=%v done=%v accepted %d of %d",
+			c.id, quietLimit, c.rStarted, c.rDone.Load(), c.off, c.wStarted, c.wDone.Load(), c.accepted, cp.total))
 	case c.wErr != "":
-		o.Violate("C02/incomplete/"+lay+"/write-"+c.wErr, "%s: fault-free run, writer ended with %s (%s) after %d of %d bytes", c.id, c.wErr, c.wErrText, c.accepted, cp.total)
-	case c.rEnd != "eof":
-		o.Violate("C02/incomplete/"+lay+"/read-"+strings.TrimPrefix(c.rEnd, "error:"), "%s: fault-free run, reader ended with %q (%s) at offset %d of %d", c.id, c.rEnd, c.rErrText, c.off, cp.total)
+		w.violate("C02/incomplete/"+lay+"/write-"+c.wErr, fmt.Sprintf("%s: fault-free run, writer ended with %s (%s) after %d of %d bytes", c.id, c.wErr, c.wErrText, c.accepted, cp.total))
+	case c.rEnd != "eof" && !wrappedEnd:
+		w.violate("C02/incomplete/"+lay+"/read-"+strings.TrimPrefix(c.rEnd, "error:"), fmt.Sprintf("%s: fault-free run, reader ended with %q (%s) at offset %d of %d", c.id, c.rEnd, c.rErrText, c.off, cp.total))
 	case c.off != cp.total || c.accepted != cp.total:
-		o.Violate("C02/incomplete/"+lay+"/short", "%s: fault-free run with clean close: planned %d, Write accepted %d, delivered %d", c.id, cp.total, c.accepted, c.off)
+		w.violate("C02/incomplete/"+lay+"/short", fmt.Sprintf("%s: fault-free run with clean close: planned %d, Write accepted %d, delivered %d", c.id, cp.total, c.accepted, c.off))
 	}
 }
